@@ -51,7 +51,8 @@ def run(ctx, replay):
         "samples": [s for sm in sums + s2 for s in sm.get("samples", [])][:5],
         "evaluations": n,
         "distinct_nontrivial": sum(s.get("rewritten", 0) for s in sums + s2),
-        "rule": "grammar: 11 leading forms x 1..MaxSegs path segments from the name pool x 0..2 ref segments (TLC, exhaustive) plus seeded "
+        "rule": "grammar: 17 leading forms x 1..MaxSegs path segments from the name pool (incl. a name ending in .git and one carrying the suffix) x "
+                "0..2 ref segments x trailing separator where the source is left as written (TLC, exhaustive) plus seeded "
                 "random names/refs over the full documented alphabet; non-trivial = sources that canonicalisation rewrites (counted by the driver)",
         "exhaustive": True,
         "trace_events_rejected": len(bad),
